@@ -284,6 +284,51 @@ func collisionScenario2(sameData, owned, listed bool) func(*fam) {
 	}
 }
 
+// C08 directed: rollback A -> B -> A where the renumbering update of revision A is answered with a fault.
+// Whatever the reconcile then reports, a reconcile that succeeds leaves A numbered above B (judged by the
+// per-reconcile monitor: update-revision-not-the-newest), and the calm phase ends with A as update revision.
+func rollbackFaultScenario(kind, mode string, catchUp bool) func(*fam) {
+	return func(f *fam) {
+		w, r := f.w, f.r
+		r.Sets = []string{"web"}
+		p := int32(0)
+		w.Srv.Seed(simapi.Sets, world.NewSet(world.SetOpts{Name: "web", Replicas: 1, Partition: &p, HistLimit: 10, TemplateV: 0}))
+		w.DeliverAll()
+		r.Calm(1)
+		var nameA string
+		for _, rev := range world.RevisionsOf(w.Srv.Snap(), world.NS) {
+			nameA = rev.Name
+		}
+		w.EditSet("web", func(s *asv1.StatefulSet) { s.Spec.Template = world.Template(s.Spec.Selector.MatchLabels, 1) })
+		w.DeliverAll()
+		r.Calm(1)
+		w.EditSet("web", func(s *asv1.StatefulSet) { s.Spec.Template = world.Template(s.Spec.Selector.MatchLabels, 0) })
+		w.DeliverAll()
+		r.Trace = append(r.Trace, fmt.Sprintf("directed rollback: renumbering update of %s answered with %s/%s (caches catch up mid-reconcile: %v)", nameA, kind, mode, catchUp))
+		w.Srv.AddFault(&simapi.Fault{Identity: "update|controllerrevisions||" + nameA, Occ: 0, Kind: kind, Mode: mode})
+		w.CatchUp = catchUp
+		rec := r.Reconcile("web")
+		w.CatchUp = false
+		w.Srv.ClearFaults()
+		fired := false
+		for _, c := range rec.Calls {
+			if c.Injected != "" {
+				fired = true
+			}
+		}
+		if !fired {
+			f.res.Inconclusive = append(f.res.Inconclusive, "rollback scenario: the renumbering update was never issued")
+			return
+		}
+		f.st.Inc("rollback_renumber_fault_scenarios")
+		w.DeliverAll()
+		r.Calm(1)
+		if s := w.GetSet("web"); s != nil && s.Status.UpdateRevision != nameA {
+			f.report(mon.V("C08", "rollback-did-not-reuse-revision", "after the rollback status.updateRevision=%q, the earlier revision of that template is %q", s.Status.UpdateRevision, nameA))
+		}
+	}
+}
+
 func init() {
 	directedC06 = []func(*fam){
 		claimHistory(asv1.OrderedReadyPodManagement, "web", 1), claimHistory(asv1.ParallelPodManagement, "web", 0),
@@ -292,7 +337,9 @@ func init() {
 		claimFaults("500"), claimFaults("exists"), claimFaults("timeout"),
 	}
 	directedC08 = []func(*fam){collisionScenario(false), collisionScenario(true),
-		collisionScenario2(false, true, true), collisionScenario2(false, true, false), collisionScenario2(false, false, true), collisionScenario2(true, true, true)}
+		collisionScenario2(false, true, true), collisionScenario2(false, true, false), collisionScenario2(false, false, true), collisionScenario2(true, true, true),
+		rollbackFaultScenario("conflict", "before", false), rollbackFaultScenario("conflict", "before", true), rollbackFaultScenario("500", "before", false),
+		rollbackFaultScenario("timeout", "after", false), rollbackFaultScenario("500", "after", true)}
 	directedC12 = []func(*fam){staleStatusScenario(asv1.ParallelPodManagement, "labels"), staleStatusScenario(asv1.OrderedReadyPodManagement, "labels"),
 		staleStatusScenario(asv1.ParallelPodManagement, "generation"), staleStatusScenario(asv1.OrderedReadyPodManagement, "generation"),
 		staleStatusRegress(asv1.ParallelPodManagement), staleStatusRegress(asv1.OrderedReadyPodManagement)}
